@@ -255,6 +255,40 @@ fn gone_child(callers: usize) -> i32 {
     0
 }
 
+/// A cache behind a `'static` reference is switched to eager reloading; `hot_reload` has nothing
+/// left to do but must still return, for one caller and for several at once, before and after an
+/// eager reload.
+fn static_child(callers: usize) -> i32 {
+    trace_enable(false);
+    let mem = Mem::new(true);
+    mem.write("q", "x", b"3");
+    let cache: &'static AssetCache<Mem> = Box::leak(Box::new(AssetCache::with_source(mem.clone())));
+    cache.load::<TInt>("q").unwrap();
+    cache.hot_reload();
+    cache.enhance_hot_reloading();
+    std::thread::scope(|s| {
+        for _ in 0..callers {
+            s.spawn(|| {
+                for _ in 0..20 {
+                    cache.hot_reload();
+                }
+            });
+        }
+    });
+    mem.write("q", "x", b"4");
+    mem.send(vec![OwnedDirEntry::File("q".into(), "x".into())]);
+    let t0 = Instant::now();
+    while cache.load::<TInt>("q").unwrap().read().0.n != 4 {
+        if t0.elapsed() > Duration::from_secs(5) {
+            eprintln!("no eager reload within 5 s");
+            return 7;
+        }
+        std::thread::sleep(Duration::from_millis(5));
+    }
+    cache.hot_reload();
+    0
+}
+
 /// A chain of `n` assets, each loading the next one; loaded bottom-up (no deep recursion on the
 /// loading thread), then the bottom file is edited: one pass walks the whole chain and reloads every
 /// asset of it, on the reloader thread.
@@ -289,6 +323,7 @@ fn deep_child(n: usize) -> i32 {
 pub fn child(a: &Args) -> i32 {
     match a.get("kind") {
         Some("deep") => deep_child(a.get("n").and_then(|x| x.parse().ok()).unwrap_or(1000)),
+        Some("static") => static_child(a.get("n").and_then(|x| x.parse().ok()).unwrap_or(1)),
         Some("gone") => gone_child(a.get("n").and_then(|x| x.parse().ok()).unwrap_or(1)),
         Some("flood") => flood_child(a.get("n").and_then(|x| x.parse().ok()).unwrap_or(100)),
         Some("shape") => shape_child(a.get("spec").unwrap_or("1;")),
@@ -372,7 +407,7 @@ fn all_shapes(max_nodes: usize, rng: &mut Rng, extra_random: usize) -> Vec<Strin
 
 pub fn run(a: &Args) {
     let mut rng = Rng::new(a.seed);
-    let parts = a.get("parts").unwrap_or("shapes,panic,flood,conc,gone,deep").to_string();
+    let parts = a.get("parts").unwrap_or("shapes,panic,flood,conc,gone,deep,static").to_string();
     let mut evals = 0u64;
     let mut samples: Vec<String> = vec![];
     let mut distinct = std::collections::HashSet::new();
@@ -466,6 +501,25 @@ pub fn run(a: &Args) {
                     "hot_reload-hangs-after-reloader-exit",
                     format!(
                         "{{\"kind\": \"the source dropped its event sender, the reloader left; then {n} thread(s) call hot_reload\", \"observed\": {}}}",
+                        jstr(&e)
+                    ),
+                );
+                break;
+            }
+        }
+    }
+
+    // (G) hot_reload on a cache that reloads eagerly ('static mode)
+    if parts.contains("static") && a.replay.is_none() {
+        for n in [1usize, 4] {
+            evals += 1;
+            distinct.insert(format!("static {n}"));
+            if let Err(e) = run_child(&["--kind", "static", "--n", &n.to_string()], Duration::from_secs(15)) {
+                violation(
+                    &a.out,
+                    "hot_reload-stall",
+                    format!(
+                        "{{\"kind\": \"enhance_hot_reloading on a leaked cache; then {n} thread(s) call hot_reload\", \"observed\": {}}}",
                         jstr(&e)
                     ),
                 );
